@@ -77,7 +77,7 @@ func (h *DirHandler) AddOut(msg *fbb.Message) error {
 		return err
 	}
 
-	return ioutil.WriteFile(path.Join(h.MBoxPath, DIR_OUTBOX, msg.MID()+Ext), data, 0644)
+	return writeFileAtomic(path.Join(h.MBoxPath, DIR_OUTBOX, msg.MID()+Ext), data, 0644)
 }
 
 func (h *DirHandler) ProcessInbound(msgs ...*fbb.Message) (err error) {
@@ -92,7 +92,7 @@ func (h *DirHandler) ProcessInbound(msgs ...*fbb.Message) (err error) {
 			return err
 		}
 
-		if err = ioutil.WriteFile(filename, data, 0664); err != nil {
+		if err = writeFileAtomic(filename, data, 0664); err != nil {
 			return fmt.Errorf("Unable to write received message (%s): %s", filename, err)
 		}
 	}
@@ -206,6 +206,37 @@ func ensureDirStructure(mboxPath string) (err error) {
 	return
 }
 
+// writeFileAtomic writes data to a temporary file in the same directory and
+// then renames it to filename, so that a crash (or a full disk) never leaves a
+// partially written message behind under its final name.
+//
+// The temporary file is a dot file, which LoadMessageDir ignores.
+func writeFileAtomic(filename string, data []byte, perm os.FileMode) error {
+	f, err := ioutil.TempFile(filepath.Dir(filename), "."+filepath.Base(filename)+".tmp")
+	if err != nil {
+		return err
+	}
+	tmp := f.Name()
+
+	_, err = f.Write(data)
+	if err == nil {
+		err = f.Sync()
+	}
+	if cerr := f.Close(); err == nil {
+		err = cerr
+	}
+	if err == nil {
+		err = os.Chmod(tmp, perm)
+	}
+	if err == nil {
+		err = os.Rename(tmp, filename)
+	}
+	if err != nil {
+		os.Remove(tmp)
+	}
+	return err
+}
+
 func UserPath(root, callsign string) string {
 	return path.Join(root, callsign)
 }
@@ -288,5 +319,5 @@ func SetUnread(msg *fbb.Message, unread bool) error {
 	if filePath == "" {
 		return fmt.Errorf("Missing X-FilePath header")
 	}
-	return ioutil.WriteFile(filePath, data, 0644)
+	return writeFileAtomic(filePath, data, 0644)
 }
